@@ -15,6 +15,7 @@ Accepted fragment (anything else is a translation failure, reported as a broken 
   * the coordinate-wise halving  fp_hlv(x[k], x[k]) for every coordinate k of a block -> o.hlv;
   * fp_add_dig(x[0]…[0], x[0]…[0], 1) / fp_sub_dig(…, 1) on the first base coordinate of a block -> o.add x o.one / o.sub;
   * `int f = fpK_is_zero(x);` -> o.isZero;  `f = fpN_cmp_dig(a, 1) == RLC_EQ;` -> the Boolean parameter isOne;
+    `f = fpK_is_zero(x) && fpK_is_zero(y) && …;` -> the conjunction of o.isZero;
     fpK_copy_sec(t, x, f) -> `if f then x else t`.
 Aliasing of the destination with an operand is not modelled here (the correspondence run exercises it).
 """
@@ -159,6 +160,15 @@ class Emit:
         if re.match(r"^f = \(?fp%d_cmp_dig\(a, 1\) == RLC_EQ\)?;$" % self.n, l):
             self.cur["f"] = "isOne"
             self.uses_isone = True
+            return 1
+        m = re.match(r"^f = ((?:fp%d_is_zero\([^()]*\)(?: && )?)+);$" % k, l)
+        if m:
+            # conjunction of zero tests (the repaired identity test of the decompression)
+            parts = re.findall(r"fp%d_is_zero\(([^()]*)\)" % k, m.group(1))
+            self.cnt["f"] = self.cnt.get("f", 0) + 1
+            nm = "f_%d" % self.cnt["f"]
+            self.lines.append("  let %s := %s" % (nm, " && ".join("o.isZero %s" % self.read(x) for x in parts)))
+            self.cur["f"] = nm
             return 1
         m = CALL.match(l)
         if not m:
